@@ -1,8 +1,10 @@
 //! Verification harness for facebook/akd: runs the implementation (from /repo's working tree) on
 //! generated inputs and prints canonical traces for the correspondence with the Coq model, plus
 //! the result of per-property direct oracles.
+mod faultdb;
 mod labels;
 mod markers;
+mod mgr;
 mod proofs;
 mod rng;
 mod treeutil;
@@ -50,6 +52,14 @@ fn main() {
             }
             writeln!(out).unwrap();
             writeln!(out, "SUMMARY cases={} oracle_failures={}", cx.cases, cx.fails.len()).unwrap();
+        }
+        "mgr" => {
+            let o = mgr::run(arg(&args, 2, 1u64), arg(&args, 3, 0u32));
+            out.write_all(o.lines.as_bytes()).unwrap();
+            for f in &o.fails {
+                writeln!(out, "ORACLE-FAIL {}", f).unwrap();
+            }
+            writeln!(out, "SUMMARY cases={} sequences={} oracle_failures={}", o.cases, o.seqs, o.fails.len()).unwrap();
         }
         _ => {
             eprintln!("usage: akd-verif-harness <labels> seed tier");
